@@ -211,7 +211,7 @@ def examine_drawing(ctx, program, rng, ac_w=None):
                         ctx.violation(f'C14:annotation-raises-{type(e).__name__}', f'{kind} {q}({name}): {str(e)[:100]}', rep)
                         continue
                     sign = -1 if reverse else 1
-                    bad = judge(kind, text, unit, sign * ref, pp, q, ac_w)
+                    bad = judge(kind, text, unit, sign * ref, pp, q, ac_w, getattr(sol, 'peak_values', False))
                     for key, what in bad:
                         ctx.violation(key, f'{kind} {q} of {name!r} reverse={reverse}: {what}', rep)
                     if abs(complex(ref)) > 0:
@@ -224,14 +224,14 @@ def examine_drawing(ctx, program, rng, ac_w=None):
             except Exception as e:  # noqa: BLE001
                 ctx.violation(f'C14:annotation-raises-{type(e).__name__}', f'{kind} potential({lab})', dict(rep0, node=lab, kind=kind))
                 continue
-            for key, what in judge(kind, text, 'V', ref, pp, 'potential', ac_w):
+            for key, what in judge(kind, text, 'V', ref, pp, 'potential', ac_w, getattr(sol, 'peak_values', False)):
                 ctx.violation(key, f'{kind} potential of {lab!r}: {what}', dict(rep0, node=lab, kind=kind, precision=pp))
     # declarative route: the same drawing built from a description, labels read from the label symbols
     ctx.sample({'program': program, 'ac_w': ac_w}, cap=2)
     plt.close('all')
 
 
-def judge(kind, text, unit, ref, p, q, w):
+def judge(kind, text, unit, ref, p, q, w, peak=False):
     """-> list of (key, what)"""
     if kind == 'real':
         if q == 'power':
@@ -285,7 +285,7 @@ def judge(kind, text, unit, ref, p, q, w):
             return [('C14:sinusoid:unparsable', repr(text))]
         A, fn, wv, ph = r
         # ref is the RMS phasor held by the adapter?  the time function must carry the PEAK amplitude
-        sol_peak = getattr(judge, '_peak', None)
+        sol_peak = peak
         bad = []
         want_amp = abs(ref) * (1 if sol_peak else math.sqrt(2))
         if q == 'power':
